@@ -197,6 +197,33 @@ def iter_dump_states(text: str):
             yield parse_state_body(body)
 
 
+def iter_dump_blocks(text: str, must_contain: str | None = None):
+    """Yield the raw text block of each state (optionally only those containing a marker substring)."""
+    hdrs = list(_state_hdr.finditer(text))
+    for k, h in enumerate(hdrs):
+        end = hdrs[k + 1].start() if k + 1 < len(hdrs) else len(text)
+        body = text[h.end():end]
+        if body.strip() and (must_contain is None or must_contain in body):
+            yield body
+
+
+def _parse_blocks(blocks):
+    return [parse_state_body(b) for b in blocks]
+
+
+def parse_dump_parallel(text: str, must_contain: str | None = None, processes: int = 8, min_parallel: int = 4000):
+    """Parse a dump's states (optionally filtered) using a process pool for large dumps."""
+    blocks = list(iter_dump_blocks(text, must_contain))
+    if len(blocks) < min_parallel or processes <= 1:
+        return _parse_blocks(blocks)
+    import multiprocessing as mp
+    n = max(1, len(blocks) // (processes * 4))
+    chunks = [blocks[i:i + n] for i in range(0, len(blocks), n)]
+    with mp.get_context("fork").Pool(processes) as pool:
+        parts = pool.map(_parse_blocks, chunks)
+    return [st for part in parts for st in part]
+
+
 def parse_dump_file(path: str):
     with open(path) as f:
         return list(iter_dump_states(f.read()))
